@@ -1,1 +1,3 @@
 //! Facade for `TalkRequest` in `service.rs`.
+pub use crate::service::TalkRequest;
+pub use crate::ResponseError;
